@@ -1,0 +1,81 @@
+//go:build verif
+
+package radius
+
+import (
+	"os"
+	"sort"
+	"sync/atomic"
+)
+
+// StartForVerif is Start() without the two background workers: the caller steps the
+// pending-record processor and the interim updates itself.
+func (am *AccountingManager) StartForVerif() error {
+	if !atomic.CompareAndSwapInt32(&am.running, 0, 1) {
+		return nil
+	}
+	_ = os.MkdirAll(am.persistPath, 0755)
+	return am.recoverOrphanedSessions()
+}
+
+// StepQueueForVerif executes one `case record := <-am.pendingQueue` arm of the processor.
+// It reports false when the queue channel is empty.
+func (am *AccountingManager) StepQueueForVerif() bool {
+	select {
+	case record := <-am.pendingQueue:
+		am.processPendingRecord(record)
+		return true
+	default:
+		return false
+	}
+}
+
+// RetryForVerif executes one retry-ticker arm of the processor.
+func (am *AccountingManager) RetryForVerif() { am.retryPendingRecords() }
+
+// InterimForVerif sends the interim update of one session as sendInterimUpdates does for a
+// session that is due. It reports false when the session is unknown or pending stop.
+func (am *AccountingManager) InterimForVerif(sessionID string) bool {
+	am.sessionsMu.RLock()
+	session, ok := am.sessions[sessionID]
+	skip := ok && session.StopPending
+	am.sessionsMu.RUnlock()
+	if !ok || skip {
+		return false
+	}
+	am.sendInterimUpdate(session)
+	return true
+}
+
+// PendingForVerif returns a copy of the retry map, sorted by record id.
+func (am *AccountingManager) PendingForVerif() []PendingAcctRecord {
+	am.pendingMu.RLock()
+	defer am.pendingMu.RUnlock()
+	out := make([]PendingAcctRecord, 0, len(am.pendingRecords))
+	for _, r := range am.pendingRecords {
+		out = append(out, *r)
+	}
+	sort.Slice(out, func(i, j int) bool { return out[i].ID < out[j].ID })
+	return out
+}
+
+// QueueForVerif returns the record ids waiting in the queue channel, in channel order.
+// Must not be called while another goroutine uses the manager.
+func (am *AccountingManager) QueueForVerif() []string {
+	var recs []*PendingAcctRecord
+	for {
+		select {
+		case r := <-am.pendingQueue:
+			recs = append(recs, r)
+			continue
+		default:
+		}
+		break
+	}
+	ids := make([]string, 0, len(recs))
+	for _, r := range recs {
+		ids = append(ids, r.ID)
+		am.pendingQueue <- r
+	}
+	return ids
+}
